@@ -36,7 +36,7 @@ package mint
 //@ macro okproof(m, p) = len(p.Secret) <= 512 && (p.Id in m.keysets) && (p.Amount in m.keysets[p.Id].Keys) && hexok(p.C) && pt.parseok(hexdec(p.C)) && pt.parse(hexdec(p.C)) == smul(sc.of(m.keysets[p.Id].Keys[p.Amount].PrivateKey.Key), h2c(bytesOf(p.Secret))) && (nut10.ok(p.Secret) && nut10.parse(p.Secret).Kind == nut10.P2PK ==> (exists t :: p2pk.verdict(p, nut10.parse(p.Secret), t) == nil)) && (nut10.ok(p.Secret) && nut10.parse(p.Secret).Kind == nut10.HTLC ==> (exists t :: htlc.verdict(p, nut10.parse(p.Secret), t) == nil))
 
 //@ func (*Mint).verifyProofs
-//@   ensures @cashuerr [C20] err != nil ==> iscashu(err) && !lnerr(err)
+//@   ensures @cashuerr [C20] err != nil ==> iscashu(err) && !valinternal(err) && !lnerr(err)
 //@   tags C01 C04 C12 C13
 //@   safety C06
 //@   requires minv(m)
@@ -66,7 +66,7 @@ package mint
 
 //@ func (*Mint).Swap
 //@   records api.err api.calls
-//@   ensures @cashuerr [C20] err != nil ==> iscashu(err) && !lnerr(err)
+//@   ensures @cashuerr [C20] err != nil ==> iscashu(err) && !valinternal(err) && !lnerr(err)
 //@   tags C01 C02 C06 C15 C12 C07
 //@   safety C06
 //@   requires minv(m)
@@ -91,7 +91,7 @@ package mint
 
 //@ func (*Mint).GetMintQuoteState
 //@   records api.err api.calls
-//@   ensures @cashuerr [C20] err != nil ==> iscashu(err)
+//@   ensures @cashuerr [C20] err != nil ==> iscashu(err) && !valinternal(err)
 //@   tags C03
 //@   safety C06
 //@   requires minv(m)
@@ -104,7 +104,7 @@ package mint
 
 //@ func (*Mint).MintTokens
 //@   records api.err api.calls
-//@   ensures @cashuerr [C20] err != nil ==> iscashu(err)
+//@   ensures @cashuerr [C20] err != nil ==> iscashu(err) && !valinternal(err)
 //@   tags C03 C02 C06 C15 C07
 //@   safety C06
 //@   requires minv(m)
@@ -125,7 +125,7 @@ package mint
 //@ macro ysof(Ys, proofs) = len(Ys) == len(proofs) && (forall i :: 0 <= i && i < len(proofs) ==> Ys[i] == Yof(proofs[i].Secret))
 
 //@ func (*Mint).settleProofs
-//@   ensures @cashuerr [C20] err != nil ==> iscashu(err)
+//@   ensures @cashuerr [C20] err != nil ==> iscashu(err) && !valinternal(err)
 //@   tags C01 C05
 //@   safety C06
 //@   requires minv(m)
@@ -149,7 +149,7 @@ package mint
 //@   ensures @errisfault [C06] err != nil ==> db.faults > old(db.faults)
 
 //@ func (*Mint).settleQuotesInternally
-//@   ensures @cashuerr [C20] err != nil ==> iscashu(err)
+//@   ensures @cashuerr [C20] err != nil ==> iscashu(err) && !valinternal(err)
 //@   tags C02 C03 C05
 //@   safety C06
 //@   requires minv(m)
@@ -168,7 +168,7 @@ package mint
 
 //@ func (*Mint).MeltTokens
 //@   records api.err api.calls
-//@   ensures @cashuerr [C20] err != nil ==> iscashu(err)
+//@   ensures @cashuerr [C20] err != nil ==> iscashu(err) && !valinternal(err)
 //@   tags C01 C02 C05 C06 C15 C07
 //@   safety C06
 //@   requires minv(m)
@@ -207,7 +207,7 @@ package mint
 
 //@ func (*Mint).GetMeltQuoteState
 //@   records api.err api.calls
-//@   ensures @cashuerr [C20] err != nil ==> iscashu(err)
+//@   ensures @cashuerr [C20] err != nil ==> iscashu(err) && !valinternal(err)
 //@   tags C01 C05 C15
 //@   safety C06
 //@   requires minv(m)
@@ -230,7 +230,7 @@ package mint
 
 //@ func (*Mint).ProofsStateCheck
 //@   records api.err api.calls
-//@   ensures @cashuerr [C20] err != nil ==> iscashu(err)
+//@   ensures @cashuerr [C20] err != nil ==> iscashu(err) && !valinternal(err)
 //@   tags C15 C01 C05
 //@   safety C06
 //@   requires minv(m)
@@ -246,7 +246,7 @@ package mint
 
 //@ func (*Mint).RestoreSignatures
 //@   records api.err api.calls
-//@   ensures @cashuerr [C20] err != nil ==> iscashu(err)
+//@   ensures @cashuerr [C20] err != nil ==> iscashu(err) && !valinternal(err)
 //@   tags C15
 //@   safety C06
 //@   requires minv(m)
@@ -273,7 +273,7 @@ package mint
 
 //@ func (*Mint).RequestMintQuote
 //@   records api.err api.calls
-//@   ensures @cashuerr [C20] err != nil ==> iscashu(err)
+//@   ensures @cashuerr [C20] err != nil ==> iscashu(err) && !valinternal(err)
 //@   tags C16 C03 C02
 //@   safety C06
 //@   requires minv(m)
@@ -287,7 +287,7 @@ package mint
 
 //@ func (*Mint).RequestMeltQuote
 //@   records api.err api.calls
-//@   ensures @cashuerr [C20] err != nil ==> iscashu(err) && !lnerr(err)
+//@   ensures @cashuerr [C20] err != nil ==> iscashu(err) && !valinternal(err) && !lnerr(err)
 //@   tags C16 C02 C05
 //@   safety C06
 //@   requires minv(m)
